@@ -21,7 +21,10 @@ Open Scope nat_scope.
 (** * Part 1: driving the model with harness operations *)
 
 Inductive hop :=
-| HTask (async : bool)                              (* RunTask (in a goroutine) / RunAsyncTask *)
+| HTask (async : bool) (ctx : option nat)           (* RunTask (in a goroutine) / RunAsyncTask, called with the
+                                                       background context or the x-th WithCancelOn* context --
+                                                       which stopper.go never inspects for these two: the
+                                                       model has no such parameter *)
 | HLimited (sem : nat) (wait : bool) (ctx : option nat)
 | HRelease (i : nat)                                (* let the body of task i return *)
 | HPanic (i : nat)                                  (* let the body of task i panic (Stopper built with OnPanic) *)
@@ -36,7 +39,7 @@ Inductive hop :=
 
 Definition op_label (o : hop) : label :=
   match o with
-  | HTask a => LCallTask (if a then KAsync else KSync)
+  | HTask a _ => LCallTask (if a then KAsync else KSync)
   | HLimited sm w c => LCallTask (KLimited sm w c)
   | HRelease i => LBodyEnd i
   | HPanic i => LBodyPanic i
@@ -217,7 +220,8 @@ Definition sd (m : smp) : bool := let '(_, _, d, _) := m in d.
 Definition sl (m : smp) : list Z := let '(_, _, _, l) := m in l.
 
 Inductive ev :=
-| EStart (i : nat) (sem : option nat)   (* about to call Run*Task number i *)
+| EStart (i : nat) (sync : bool) (sem : option nat)
+                                        (* about to call Run*Task number i; sync: RunTask *)
 | ERet (i : nat) (r : ret) (m : smp)    (* that call returned r *)
 | EBegin (i : nat) (m : smp)            (* f began *)
 | EEnd (i : nat) (m : smp)              (* f is about to return *)
@@ -231,14 +235,19 @@ Inductive ev :=
 | EQuiCall (k : nat)
 | EQuiRet (k : nat) (m : smp)
 | EObs (m : smp)                        (* a bystander's sample *)
-| EIdle (upto : nat) (m : smp).         (* NumTasks() returned 0 at a moment after the first [upto]
+| EIdle (upto : nat) (m : smp)          (* NumTasks() returned 0 at a moment after the first [upto]
                                            events had been logged; m sampled after that *)
+| EBusy (upto : nat) (n : Z) (m : smp)
+                                        (* NumTasks() returned n <> 0 at such a moment *)
+| EFinal (m : smp).                     (* controlled runs: every body the harness started has been
+                                           told to return, Stop has been called, and the harness has
+                                           waited (polling, long time-out) for the Stopper to settle *)
 
 Definition smp_of (e : ev) : option smp :=
   match e with
   | ERet _ _ m | EBegin _ m | EEnd _ m | EWStart _ m | EWEnd _ m | EAddCall _ m | EAddRet _ m
-  | EClose _ m | EStopRet _ m | EQuiRet _ m | EObs m | EIdle _ m => Some m
-  | EStart _ _ | EStopCall _ | EQuiCall _ => None
+  | EClose _ m | EStopRet _ m | EQuiRet _ m | EObs m | EIdle _ m | EBusy _ _ m | EFinal m => Some m
+  | EStart _ _ _ | EStopCall _ | EQuiCall _ => None
   end.
 
 Definition mem (i : nat) (l : list nat) : bool := existsb (Nat.eqb i) l.
@@ -457,7 +466,7 @@ Fixpoint ruleF (tbl : list (nat * nat)) (running inflight : list Z) (drained : b
         | None => true
         end in
       match e with
-      | EStart i (Some k) => ruleF ((i, k) :: tbl) running (bump inflight k 1) drained tl
+      | EStart i _ (Some k) => ruleF ((i, k) :: tbl) running (bump inflight k 1) drained tl
       | ERet i r _ =>
           match sem_lookup tbl i with
           | Some k => let infl' := bump inflight k (-1) in chk running infl' && ruleF tbl running infl' here tl
@@ -489,7 +498,7 @@ Definition zeros (n : nat) : list Z := repeat 0%Z n.
     observation. *)
 Definition started_on (k : nat) (l : list ev) : list nat :=
   flat_map (fun e => match e with
-                     | EStart i (Some k') => if k' =? k then [i] else []
+                     | EStart i _ (Some k') => if k' =? k then [i] else []
                      | _ => [] end) l.
 Definition err_ids (l : list ev) : list nat := refused_ids l.
 
@@ -525,14 +534,14 @@ Fixpoint last_idle_upto (l : list ev) (acc : nat) : nat :=
   end.
 
 Definition start_pos (i : nat) (l : list ev) : option nat :=
-  first_pos (fun e => match e with EStart j _ => j =? i | _ => false end) l.
+  first_pos (fun e => match e with EStart j _ _ => j =? i | _ => false end) l.
 
 Fixpoint ruleT_aux (caps : list nat) (tbl : list (nat * nat)) (all : list ev) (l : list ev) (p : nat) : bool :=
   match l with
   | [] => true
   | e :: tl =>
       match e with
-      | EStart i (Some k) => ruleT_aux caps ((i, k) :: tbl) all tl (S p)
+      | EStart i _ (Some k) => ruleT_aux caps ((i, k) :: tbl) all tl (S p)
       | ERet i RThrottled _ =>
           match sem_lookup tbl i, start_pos i all with
           | Some k, Some ps =>
@@ -549,13 +558,61 @@ Fixpoint ruleT_aux (caps : list nat) (tbl : list (nat * nat)) (all : list ev) (l
   end.
 Definition ruleT (caps : list nat) (l : list ev) : bool := ruleT_aux caps [] l l 0.
 
+(** ** N. a submission that is refused or returns an error leaves the task
+    count as it was.  NumTasks() is never negative, and when it returned n
+    at least n calls must have been between runPrelude and runPostlude; the
+    calls that can have been are those started by then, except
+    those that had returned an error before, RunTask calls that had returned
+    before (runPostlude precedes the return), and tasks whose body had ended
+    before an earlier moment at which NumTasks() was 0. *)
+Definition started_ids (l : list ev) : list nat :=
+  flat_map (fun e => match e with EStart i _ _ => [i] | _ => [] end) l.
+Definition sync_ids (l : list ev) : list nat :=
+  flat_map (fun e => match e with EStart i true _ => [i] | _ => [] end) l.
+Definition returned_ids (l : list ev) : list nat :=
+  flat_map (fun e => match e with ERet i _ _ => [i] | _ => [] end) l.
+
+Fixpoint ruleN_aux (all : list ev) (l : list ev) (p : nat) : bool :=
+  match l with
+  | [] => true
+  | e :: tl =>
+      match e with
+      | EBusy u n _ =>
+          let pre := firstn p all in
+          let early := firstn u all in
+          let errs := err_ids early in
+          let syncs := sync_ids pre in
+          let syncdone := filter (fun i => mem i syncs) (returned_ids early) in
+          let asyncdone := ended_ids (firstn (last_idle_upto early 0) all) in
+          let cands := filter (fun i => negb (mem i errs) && negb (mem i syncdone) && negb (mem i asyncdone))
+                              (started_ids pre) in
+          (0 <=? n)%Z && (n <=? Z.of_nat (length cands))%Z
+      | _ => true
+      end && ruleN_aux all tl (S p)
+  end.
+Definition ruleN (l : list ev) : bool := ruleN_aux l l 0.
+
+(** ** L. Stop still returns: in a controlled run, once every body has been
+    told to return and Stop has been called, the stopper is stopped and every
+    Stop and Quiesce call has returned. *)
+Definition call_ids (l : list ev) : list nat :=
+  flat_map (fun e => match e with EStopCall k | EQuiCall k => [k] | _ => [] end) l.
+Definition callret_ids (l : list ev) : list nat :=
+  flat_map (fun e => match e with EStopRet k _ | EQuiRet k _ => [k] | _ => [] end) l.
+Definition ruleL (l : list ev) : bool :=
+  forallb (fun e => match e with
+                    | EFinal m => sd m && (let r := callret_ids l in forallb (fun k => mem k r) (call_ids l))
+                    | _ => true end) l.
+
 (** The code of the first rule the history breaks; 0 = the history is fine.
     1 refused task ran; 2 a task body at/after stop-channel close or Quiesce
     return; 3 accepted task never completed; 4 phase order in a sample;
     5 not stopped although Stop returned; 6 worker outlives stopped;
     7 closers; 8 semaphore (a body running without a slot, or a slot still
     taken after drain); 9 a slot still taken although no task is left
-    (NumTasks() = 0); 10 ErrThrottled although the semaphore had room. *)
+    (NumTasks() = 0); 10 ErrThrottled although the semaphore had room;
+    11 NumTasks() counts a call that was refused / returned an error or is
+    over; 12 the stopper did not stop although every body had returned. *)
 Definition hist_code (caps : list nat) (l : list ev) : N :=
   let nsems := length caps in
   if negb (ruleA l) then 1%N
@@ -568,6 +625,8 @@ Definition hist_code (caps : list nat) (l : list ev) : N :=
   else if negb (ruleF [] (zeros nsems) (zeros nsems) false l) then 8%N
   else if negb (ruleG nsems l) then 9%N
   else if negb (ruleT caps l) then 10%N
+  else if negb (ruleN l) then 11%N
+  else if negb (ruleL l) then 12%N
   else 0%N.
 
 (** * Cases *)
